@@ -94,6 +94,14 @@ impl<T: ReaderOffset> ACtx<T> {
     }
 }
 
+/// replacing the current row by itself is the identity
+pub broadcast proof fn lemma_with_top_top<T: ReaderOffset>(ctx: ACtx<T>)
+    requires ctx.stack.len() >= 1
+    ensures #[trigger] ctx.with_top(ctx.top()) == ctx
+{
+    assert(ctx.stack.drop_last().push(ctx.stack.last()) =~= ctx.stack);
+}
+
 pub open spec fn rules_len<T: ReaderOffset>(m: Map<Register, RegisterRule<T>>) -> nat { m.dom().len() }
 
 /// rule(reg) := rule on the current row; TooManyRegisterRules when a new register does not fit the fixed storage
